@@ -136,6 +136,11 @@ impl Program {
                 _ => rest.push(l.clone()),
             }
         }
+        // operations must refer to declared call sites (a shrunk case may have lost a declaration)
+        let n = p.sites.len();
+        if p.ops.iter().any(|o| matches!(o, POp::Reg(k) | POp::New { k, .. } | POp::Evt { k, .. } if *k >= n)) {
+            p.malformed = true;
+        }
         (p, rest)
     }
 }
